@@ -262,9 +262,10 @@ class Sched:
     def _resume(self, th):
         prev, self.cur = self.cur, th.tag
         th.sem.release()
-        if not self.ctrl.acquire(timeout=HANG_S if _HUNG["n"] == 0 else HANG_S / 6):
+        limit = HANG_S if _HUNG["n"] == 0 else HANG_S / 6
+        if not self.ctrl.acquire(timeout=limit):
             # watchdog: the thread neither finished nor reached a sleep / a lock of the scheduler
-            th.abandoned, th.ending = True, f"hung (no progress within {HANG_S:.0f} s of real time)"
+            th.abandoned, th.ending = True, f"hung (no progress within {limit:.0f} s of real time)"
             _HUNG["n"] += 1
         self.cur = prev
 
@@ -426,6 +427,9 @@ def run_scenario(sc, max_sleeps=None):
     with `"window": "start"` it does so right after `request_denm_sending` has returned and BEFORE the event thread has
     executed its first statement - the thread-start latency window; otherwise after the repetitions due at `at`)."""
     evs = sc["events"]
+    for e in evs:
+        if e["kind"] not in ("direct", "eva", "crw"):
+            raise Infra(f"unknown event kind {e['kind']}")
     with rs.VClock(T0) as clock:
         sched = Sched(clock, max_sleeps)
         btp = CaptureBTP(sched, evs)
@@ -455,11 +459,7 @@ def run_scenario(sc, max_sleeps=None):
                                      rhs_cause_code="emergencyVehicleApproaching95", rhs_subcause_code=1,
                                      rhs_event_speed=30, rhs_vehicle_type=0)
                     if e.get("sync"):
-                        sched.cur = j
-                        try:
-                            tmm.trigger_denm_messages(req)
-                        finally:
-                            sched.cur = None
+                        tmm.trigger_denm_messages(req)
                     else:
                         tmm.request_denm_sending(req)
                         if (e.get("mutate") or {}).get("window") == "start":
@@ -477,13 +477,7 @@ def run_scenario(sc, max_sleeps=None):
                         TimestampIts(clock.ms - ITS_SUB),
                         ReferencePosition(e["lat"], e["lon"], PositionConfidenceEllipse(4095, 4095, 3601),
                                           Altitude(800001, "unavailable")))
-                    sched.cur = j
-                    try:
-                        tmm.send_collision_risk_warning_denm(req)
-                    finally:
-                        sched.cur = None
-                else:
-                    raise Infra(f"unknown event kind {e['kind']}")
+                    tmm.send_collision_risk_warning_denm(req)
 
             for (t, _, j, what) in actions:
                 sched.run_until(T0 + t)
@@ -491,16 +485,12 @@ def run_scenario(sc, max_sleeps=None):
                     if j in held:       # the application re-uses its dictionary for something else
                         held[j]["latitude"], held[j]["longitude"] = evs[j]["mutate"]["lat"], evs[j]["mutate"]["lon"]
                     continue
-                try:
-                    start_event(j)
-                except _Stop:
-                    errors[j] = "stopped"
-                except Infra:
-                    raise
-                except RepetitionStalled as ex:
-                    errors[j] = f"stalled ({ex})"
-                except Exception as ex:  # noqa: BLE001
-                    errors[j] = type(ex).__name__
+                # the application's call runs as a scheduler task of its own (tag = the event), at once and under the
+                # watchdog: the harness thread itself never enters the code under test (a synchronous call that blocks -
+                # send_collision_risk_warning_denm on a lock that is never released - parks / is timed out like any
+                # other thread instead of hanging the check)
+                sched.next_tag = j
+                sched.spawn(start_event, (j,))
                 sched.run_until(clock.ms)      # the threads started by this action run up to their first sleep
             sched.finish()
     obs = [[] for _ in evs]
@@ -518,8 +508,9 @@ def run_scenario(sc, max_sleeps=None):
             raise Infra(f"emission outside any event (tag {tag})")
         obs[tag].append(rec)
     endings = {}
-    for th in sched.tasks:
-        endings[th.tag] = th.ending
+    for th in sched.tasks:       # per event: the caller's task and the repetition thread it started - the worse of the two
+        if endings.get(th.tag, "fin") == "fin":
+            endings[th.tag] = th.ending
     endings.update(errors)
     return obs, endings
 
@@ -600,16 +591,28 @@ def tx_variants():
     pos: 'copy' (C17-F4 repaired: position taken at request time) / 'ref' (read by reference at every repetition)."""
     global _TX_VARIANTS
     if _TX_VARIANTS is None:
-        obs, _ = run_scenario({"station": 1, "seq0": 0, "events": [
-            {"kind": "direct", "i": 100, "T": 200, "lat": 1, "lon": 2, "start": 0, "faults": {"0": "t"}},
-            {"kind": "direct", "i": 100, "T": 200, "lat": 3000, "lon": 4000, "start": 1000, "mutate": {"at": 50, "lat": 7000, "lon": 8000}}]})
-        _TX_VARIANTS = {"loop": "skip" if len(obs[0]) == 2 else "abort",
-                        "pos": "copy" if len(obs[1]) == 2 and obs[1][1]["pos"] == [3000, 4000] else "ref"}
+        # three separate probes (a tree that stalls after a failed repetition must not blur the other two answers)
+        sc_pos = {"station": 1, "seq0": 0, "events": [
+            {"kind": "direct", "i": 100, "T": 200, "lat": 3000, "lon": 4000, "start": 0, "mutate": {"at": 50, "lat": 7000, "lon": 8000}}]}
         # round 5: WHERE is the snapshot taken - when the request is accepted (caller's thread) or later (event thread)?
-        obs, _ = run_scenario({"station": 1, "seq0": 0, "events": [
+        sc_snap = {"station": 1, "seq0": 0, "events": [
             {"kind": "direct", "i": 100, "T": 100, "lat": 3000, "lon": 4000, "start": 0,
-             "mutate": {"at": 0, "window": "start", "lat": 7000, "lon": 8000}}]})
-        _TX_VARIANTS["snap"] = "request" if len(obs[0]) == 1 and obs[0][0]["pos"] == [3000, 4000] else "late"
+             "mutate": {"at": 0, "window": "start", "lat": 7000, "lon": 8000}}]}
+        sc_loop = {"station": 1, "seq0": 0, "events": [
+            {"kind": "direct", "i": 100, "T": 200, "lat": 1, "lon": 2, "start": 0, "faults": {"0": "t"}}]}
+        v, stall = {}, None
+        for key, sc in (("pos", sc_pos), ("snap", sc_snap), ("loop", sc_loop)):
+            obs, endings = run_scenario(sc)
+            if key == "pos":
+                v[key] = "copy" if len(obs[0]) == 2 and obs[0][1]["pos"] == [3000, 4000] else "ref"
+            elif key == "snap":
+                v[key] = "request" if len(obs[0]) == 1 and obs[0][0]["pos"] == [3000, 4000] else "late"
+            else:
+                v[key] = "skip" if len(obs[0]) == 2 else "abort"
+            if stall is None and any(is_stall(x) for x in endings.values()):
+                stall = (strip(sc), len(obs[0]), next(x for x in endings.values() if is_stall(x)))
+        v["stall"] = stall      # a probe that never finishes is an outcome to be REPORTED (check_scenarios does)
+        _TX_VARIANTS = v
     return _TX_VARIANTS
 
 
@@ -695,6 +698,13 @@ def strip(sc):
 def check_scenarios(ctx, scs):
     lines_all, metas, results = [], [], []
     done = []
+    st = tx_variants().get("stall")
+    if st and not ctx.__dict__.get("_c17_probe_stall_reported"):
+        ctx.__dict__["_c17_probe_stall_reported"] = True
+        e = st[0]["events"][0]
+        ctx.violation(f"repetition stalled: event 0 ({e['kind']}, i={e['i']} ms, T={e['T']} ms, start {e['start']}, "
+                      f"faults {e.get('faults') or {}}) handed over {st[1]} DENM(s), then {st[2]}", st[0])
+        ctx.cover("watchdog_repetition_stalled")
     for sc in scs:
         if _HUNG["n"] >= 2:
             ctx.note(f"{len(scs) - len(done)} scenarios not run: two repetition threads already hung ({HANG_S:.0f} s each)")
@@ -1254,7 +1264,8 @@ class AllocRun:
     judged against THAT event: its action id, its event position, its circle centre."""
 
     def __init__(self, sc, policy, max_steps=20000):
-        if _ALLOC_DEAD[0]:
+        if _ALLOC_DEAD[0] or _HUNG["n"]:
+            # (a thread hung INSIDE the module's code and opcode tracing of the same code objects do not go together)
             raise _AllocDead()
         self.sc = sc
         log = self.log = []
@@ -1512,8 +1523,8 @@ def check_alloc(ctx, search=False):
     try:
         _check_alloc(ctx, search, observed)
     except _AllocDead:
-        ctx.note("thread scenarios stopped: a run timed out with a thread blocked outside the scheduler (reported as "
-                 "`run aborted: timeout`); the remaining scenarios were not run")
+        ctx.note("thread scenarios stopped: a repetition thread hung / a run timed out with a thread blocked outside the "
+                 "scheduler's stand-ins (reported as a violation); the remaining thread scenarios were not run")
     check_alloc_model(ctx, observed)
 
 
@@ -1559,7 +1570,7 @@ def run(ctx):
         check_rx(ctx, rx_cases(ctx.rng, ctx.scale(2500, 60000)))
         ctx.cover("rx_mgmt_field_subsets_enumerated", len(RX_SUBSETS))
         for c in corp:
-            if c.get("kind") == "alloc" and not _ALLOC_DEAD[0]:
+            if c.get("kind") == "alloc" and not _ALLOC_DEAD[0] and not _HUNG["n"]:
                 r = AllocRun(c["scenario"], dsched.Replay(c.get("schedule", [])))
                 ctx.evals()
                 for b in r.judge()[:1]:
